@@ -107,3 +107,21 @@ package codegen
 //@   at return assert [vector-dynamic] result1 == nil && is(baseInner, ir.VectorType) && isRuntime ==> result0.kind == subAccessIndex && result0.value == runtimeIndex && result0.stride == uint32(baseInner.(ir.VectorType).Scalar.Width)
 //@   at return assert [matrix-const] result1 == nil && is(baseInner, ir.MatrixType) && !isRuntime && baseInner.(ir.MatrixType).Rows >= 2 && baseInner.(ir.MatrixType).Rows <= 4 ==> result0.kind == subAccessOffset && result0.offset == ite(baseInner.(ir.MatrixType).Rows == ir.Vec2, uint32(2), uint32(4)) * uint32(baseInner.(ir.MatrixType).Scalar.Width) * constIndex
 //@   at return assert [matrix-dynamic] result1 == nil && is(baseInner, ir.MatrixType) && isRuntime && baseInner.(ir.MatrixType).Rows >= 2 && baseInner.(ir.MatrixType).Rows <= 4 ==> result0.kind == subAccessIndex && result0.value == runtimeIndex && result0.stride == ite(baseInner.(ir.MatrixType).Rows == ir.Vec2, uint32(2), uint32(4)) * uint32(baseInner.(ir.MatrixType).Scalar.Width)
+//
+// ---- statement-tree walkers descend into every nested block -------------------------------
+// (type-derived: for the statement handled by one iteration every field of type
+// Block of every statement kind is passed to the recursive call; see ir/zz_verif_contracts.go)
+//
+//@ func (*Writer).countStmtRefs
+//@   mode bv
+//@   tags C03
+//@   ghostcall countStmtRefs visitedBlock
+//@   callback count countedExpr
+//@   traverse stepmark 1 block ir.Block visitedBlock($)
+//
+//@ func (*Writer).scanForRayQueryInit
+//@   mode bv
+//@   tags C03
+//@   ghostcall scanForRayQueryInit visitedBlock
+//@   traverse stepmark 1 stmts ir.Block visitedBlock($)
+//
